@@ -195,4 +195,63 @@ Proof.
     unfold C01.den_dense at 1. cbn [d_nr d_nc d_fortran d_data]. rewrite E1, Ei.
     apply nth_tabulate; assumption.
 Qed.
+
+(* ------------------------------------------------------- column_unstack *)
+Theorem column_unstack_dense_den : forall (d out : dense C) rows i j,
+  column_unstack_dense C d rows = Some out ->
+  i < rows -> j < d_nr C d / rows ->
+  d_fortran C out = true /\ d_nr C out = rows /\ d_nc C out = d_nr C d / rows /\
+  den_dense out i j = den_dense d (i + j * rows) 0.
+Proof.
+  intros d out rows i j H Hi Hj. unfold column_unstack_dense in H.
+  destruct (negb (d_nc C d =? 1) || (rows =? 0) || negb (d_nr C d mod rows =? 0)) eqn:G;
+    [discriminate|].
+  injection H as H. subst out. simpl. repeat split.
+  assert (Hnc : d_nc C d = 1) by lia. assert (Hr : rows <> 0) by lia.
+  assert (Hm : d_nr C d mod rows = 0) by lia.
+  assert (Hn : d_nr C d = rows * (d_nr C d / rows)) by (apply Nat.div_exact; assumption).
+  assert (Hk : i + j * rows < d_nr C d) by nia.
+  unfold C01.den_dense. simpl.
+  assert (E1 : (i <? rows) && (j <? d_nr C d / rows) = true) by lia.
+  assert (E2 : (i + j * rows <? d_nr C d) && (0 <? d_nc C d) = true) by lia.
+  rewrite E1, E2. f_equal. unfold didx. destruct (d_fortran C d); lia.
+Qed.
+
+Theorem column_unstack_dense_guard : forall (d : dense C) rows,
+  (d_nc C d <> 1 \/ rows = 0 \/ d_nr C d mod rows <> 0) ->
+  column_unstack_dense C d rows = None.
+Proof.
+  intros d rows H. unfold column_unstack_dense.
+  assert (E : negb (d_nc C d =? 1) || (rows =? 0) || negb (d_nr C d mod rows =? 0) = true) by lia.
+  rewrite E. reflexivity.
+Qed.
+
+Theorem column_unstack_csr_den : forall (m out : csr C) rows i j,
+  wf_csr C m -> column_unstack_csr C m rows = Some out ->
+  i < rows -> j < s_nr C m / rows ->
+  den_csr out i j = den_csr m (i + j * rows) 0.
+Proof.
+  intros m out rows i j W H Hi Hj. unfold column_unstack_csr in H.
+  destruct (negb (s_nc C m =? 1) || (rows =? 0) || negb (s_nr C m mod rows =? 0)) eqn:G;
+    [discriminate|].
+  destruct (reshape_csr C m (s_nr C m / rows) rows) as [t|] eqn:R; [|discriminate].
+  injection H as H. subst out.
+  assert (Hnc : s_nc C m = 1) by lia. assert (Hr : rows <> 0) by lia.
+  assert (Hm : s_nr C m mod rows = 0) by lia.
+  assert (Hn : s_nr C m = rows * (s_nr C m / rows)) by (apply Nat.div_exact; assumption).
+  assert (Hk : i + j * rows < s_nr C m) by nia.
+  pose proof (reshape_csr_den m t (s_nr C m / rows) rows (i + j * rows) 0 W R Hk) as D.
+  rewrite Hnc in D. specialize (D (Nat.lt_0_1)).
+  assert (A : ((i + j * rows) * 1 + 0) / rows = j)
+    by (symmetry; apply Nat.div_unique with (r := i); lia).
+  assert (B : ((i + j * rows) * 1 + 0) mod rows = i)
+    by (symmetry; apply Nat.mod_unique with (q := j); lia).
+  rewrite A, B in D. rewrite <- D.
+  assert (Lt : length (s_rows C t) = s_nr C t).
+  { unfold reshape_csr in R.
+    destruct (negb (s_nr C m / rows * rows =? s_nr C m * s_nc C m)
+              || (s_nr C m / rows =? 0) || (rows =? 0)); [discriminate|].
+    injection R as R. subst t. simpl. rewrite map_length, seq_length. reflexivity. }
+  apply (transpose_gen_den C c0 (fun v => v)); [reflexivity|exact Lt].
+Qed.
 End Reshape.
